@@ -72,6 +72,11 @@ CHECKS = {
             "increasing order, inserted lines never), one u must restore the text before the global and a second u the command before it.",
             "Reference line editor (models/lined.py) trusted, with documented calibrations (a line changed in place keeps its identity); "
             "F23 is a known finding recognised by a resume-by-index variant of the reference.", "3/C15"),
+    "C06": ("exploration", "model-based property testing of ex scripts against a reference line editor (lock-step after every command)",
+            "Generated scripts of 1-25 line commands with the full address grammar, marks, registers, filters, register execution and "
+            "| lists run by the real binary; after every command the buffer (written to a file), the command's stdout and the current "
+            "line are compared with models/lined.py; mark identity is asserted independently of the calibrated mark rules.",
+            "Reference line editor trusted with its documented calibrations; sampled.", "3/C06"),
 }
 
 ALL = ["C%02d" % i for i in range(1, 21)]
